@@ -33,6 +33,13 @@ DecodeRot_v0416(K, f) == f % K
 (* ... and LoaderGroup.align_multi_templates used len(templates) of the *argument*,
    which for a mapping is the number of groups G, not the number of templates *)
 DecodeTmplGroup_v0416(G, f) == IF G > 1 THEN f % G ELSE f
+(* LoaderGroup.align_multi_templates with a MAPPING of template lists: group g searches its own T_g templates, so the flat
+   index of group g decodes with T_g.  Named hazard: one shared count (that of another group) for every group. *)
+DecodeTmplShared(Tother, f) == f % Tother
+SharedCountWrongExactlyWhen ==
+  \A T1 \in 1..(MaxT + 1), T2 \in 1..(MaxT + 1), K \in 1..MaxK :
+     /\ (\A f \in 0..(T1*K-1) : DecodeTmplShared(T2, f) # DecodeTmpl(T1, f) => T1 # T2)
+     /\ ((T1 # T2 /\ K > 1) => \E f \in 0..(T1*K-1) : DecodeTmplShared(T2, f) # DecodeTmpl(T1, f))
 V0416WrongExactlyWhen ==
   \A T \in 1..MaxT, K \in 1..MaxK : \A f \in 0..(T*K-1) :
      (DecodeRot_v0416(K, f) # DecodeRot(T, f)) => (T > 1 /\ K > 1)
